@@ -120,9 +120,12 @@ pub fn adapter_op(g: &mut G) -> Option<Op> {
 }
 
 fn subset(g: &mut G) -> Vec<u8> {
-    let mut v: Vec<u8> = (0..4u8).filter(|_| g.rng.chance(1, 2)).collect();
+    let n = g.nsig;
+    // mostly about half of them, sometimes (nearly) all
+    let (a, b) = if g.rng.chance(1, 4) { (9, 10) } else { (1, 2) };
+    let mut v: Vec<u8> = (0..n as u8).filter(|_| g.rng.chance(a, b)).collect();
     if v.is_empty() && g.rng.chance(3, 4) {
-        v.push(g.rng.below(4) as u8);
+        v.push(g.rng.below(n) as u8);
     }
     v
 }
@@ -149,7 +152,7 @@ pub fn signal_op(g: &mut G) -> Option<Op> {
             }
         }
         10 | 11 | 12 => Op::Dispatch(Timeout::Zero),
-        _ => Op::Raise(g.rng.below(4) as u8),
+        _ => Op::Raise(g.rng.below(g.nsig) as u8),
     })
 }
 
